@@ -336,7 +336,9 @@ func (rn *c10Runner) runChild(cases []c10Case, tag string) (inflight int, timedO
 	bdir := filepath.Join(rn.scratch, fmt.Sprintf("b%s-%d", tag, n))
 	rig.Must(os.MkdirAll(bdir, 0o755))
 	defer os.RemoveAll(bdir)
-	batch := c10Batch{FixturesDir: rn.fixturesDir, Scratch: bdir, TimeoutMs: rn.timeoutMs, AllocLimit: rn.allocLimit, Cases: cases}
+	const lingerID = -7
+	sent := append(append([]c10Case(nil), cases...), c10Case{ID: lingerID, Op: "linger"})
+	batch := c10Batch{FixturesDir: rn.fixturesDir, Scratch: bdir, TimeoutMs: rn.timeoutMs, AllocLimit: rn.allocLimit, Cases: sent}
 	bj, _ := json.Marshal(batch)
 	bpath := filepath.Join(bdir, "batch.json")
 	rpath := filepath.Join(bdir, "results.jsonl")
@@ -373,19 +375,35 @@ func (rn *c10Runner) runChild(cases []c10Case, tag string) (inflight int, timedO
 			rn.mu.Unlock()
 		}
 	}
+	_, lingered := done[lingerID]
+	delete(done, lingerID)
 	rn.mu.Lock()
 	for id, r := range done {
 		rn.results[id] = r
 	}
 	rn.mu.Unlock()
-	if werr == nil && len(done) == len(cases) {
+	if werr == nil && lingered && len(done) == len(cases) {
 		return -1, false, "", ""
 	}
 	inflight = -1
 	for _, id := range started {
-		if _, ok := done[id]; !ok {
+		if _, ok := done[id]; !ok && id != lingerID {
 			inflight = id
 		}
+	}
+	if inflight < 0 && werr != nil && len(done) > 0 {
+		// The process died after its last started case had delivered a result: the death belongs to that case (a panicking
+		// goroutine of the code under test lets its caller return first, see the linger pseudo-case).
+		last := -1
+		for _, cs := range cases {
+			if _, ok := done[cs.ID]; ok {
+				last = cs.ID
+			}
+		}
+		inflight = last
+		rn.mu.Lock()
+		delete(rn.results, last)
+		rn.mu.Unlock()
 	}
 	if inflight >= 0 && tmo[inflight] {
 		timedOut = true
@@ -463,6 +481,32 @@ func (rn *c10Runner) runBatch(cases []c10Case, tag string) {
 		case in2 < 0 && timedOut:
 			// the isolated attempt finished within the time limit and delivered a verdict: the first timeout was machine load
 			rn.slowOnce++
+		case in2 < 0 && idx > 0 && func() bool {
+			// The isolated attempt finished. A goroutine of the PREVIOUS case may have been the one that panicked: try it alone.
+			rn.mu.Unlock()
+			defer rn.mu.Lock()
+			prev := rest[idx-1]
+			rn.mu.Lock()
+			keep, had := rn.results[prev.ID]
+			rn.mu.Unlock()
+			inP, toP, sigP, tailP := rn.runChild([]c10Case{prev}, tag+"p")
+			if inP >= 0 && !toP {
+				rn.mu.Lock()
+				if sigP == "" {
+					sigP = sig
+				}
+				rn.deaths[prev.ID] = sigP + "\n" + tailP
+				delete(rn.results, prev.ID)
+				rn.mu.Unlock()
+				return true
+			}
+			if had {
+				rn.mu.Lock()
+				rn.results[prev.ID] = keep
+				rn.mu.Unlock()
+			}
+			return false
+		}():
 		case in2 < 0:
 			r2, _ := json.Marshal(rn.results[inflight])
 			if len(tail) > 900 {
